@@ -584,6 +584,30 @@ func schedCase(k *engine.Case) {
 		ok = check(fmt.Sprintf("step %d", s))
 		k.Count("quiescent_cuts", 1)
 		k.C.Max("model_candidates", int64(len(cands)))
+		for _, c := range cands {
+			// abstract model state: per key the tokens held and the queue as R/W letters
+			var sb strings.Builder
+			fmt.Fprintf(&sb, "ratio=%d", ratio)
+			for key := range c.cur {
+				fmt.Fprintf(&sb, " k%d:%d[", key, c.cur[key])
+				for _, id := range c.queue[key] {
+					if ops[id].write {
+						sb.WriteByte('W')
+					} else {
+						sb.WriteByte('R')
+					}
+				}
+				sb.WriteByte(']')
+			}
+			k.C.ObserveStr("abstract_model_states", sb.String())
+		}
+		if len(acts) > 1 {
+			var sig []string
+			for _, ac := range acts {
+				sig = append(sig, fmt.Sprintf("%s->%d", ac.typ, obs(ac.a)))
+			}
+			k.C.ObserveStr("burst_outcome_signatures", strings.Join(sig, ","))
+		}
 	}
 	if !ok {
 		cleanup()
